@@ -328,7 +328,16 @@ macro_rules! ansmsg_row {
                     let eps = 2f64.powi(-((sbits - wbits) as i32 - prec as i32));
                     bound_bits += prec as f64 - (p as f64).log2() + (1.0 + eps).log2();
                     // the size as the coder reports it (num_bits) in half of the cases, else counted in words
-                    let bits = if pop_frac % 2 == 1 { coder.num_bits() as f64 } else { (coder.num_words() * wbits) as f64 };
+                    // or counted on the temporary get_compressed() view of the live coder, which then goes on encoding
+                    let bits = match pop_frac % 3 {
+                        1 => coder.num_bits() as f64,
+                        2 => {
+                            ctx.label("size_counted_on_live_view");
+                            let view = coder.get_compressed().unwrap_infallible();
+                            (view.len() * wbits) as f64
+                        }
+                        _ => (coder.num_words() * wbits) as f64,
+                    };
                     let bound = bound_bits + (sbits + 2 * wbits) as f64 + 1e-9 * n as f64 + 1e-6;
                     vcheck!(bits <= bound, "C12/ans_bits_exceed_bound", "after {} symbols: {} bits > bound {:.3}", n, bits, bound);
                     let wmax = n + sbits / wbits + 2;
